@@ -4,6 +4,12 @@ import random
 import z3
 
 NODE_POS = {'n0': (0.0, 0.0), 'n1': (100.0, 0.0), 'n2': (0.0, 100.0), 'n3': (100.0, 100.0), 'n4': (50.0, 200.0)}
+NODE_POS.update({int(k[1:]): v for k, v in list(NODE_POS.items())})       # value-kind probes: the same nodes named by the integers 0, 1, 2, ... (0 is falsy)
+
+
+def int_ids(topo):
+    """the same topology with integer node names"""
+    return [(int(a[1:]), int(b[1:]), o) for a, b, o in topo]
 
 
 def edge_types(nodes):
@@ -49,7 +55,7 @@ def geometry(topo, i, style):
     return pts
 
 
-def build(topo, W, allnodes, style='plain'):
+def build(topo, W, allnodes, style='plain', int_edge_ids=False):
     from tracklib.core.network import Network, Node, Edge
     from tracklib.core import ENUCoords, Track, Obs
     net = Network()
@@ -58,7 +64,7 @@ def build(topo, W, allnodes, style='plain'):
         net.addNode(nodes[n])
     for i, (a, b, ori) in enumerate(topo):
         g = Track([Obs(ENUCoords(x, y, 0)) for (x, y) in geometry(topo, i, style)])
-        e = Edge('e%d' % i, g)
+        e = Edge(i if int_edge_ids else 'e%d' % i, g)
         e.orientation = ori
         e.weight = W[i]
         net.addEdge(e, nodes[a], nodes[b])
